@@ -282,6 +282,21 @@ class OrderEval(Evaluator):
                 truth = {"<": s == NEG, "<=": s in (NEG, ZERO), ">": s == POS, ">=": s in (POS, ZERO), "==": s == ZERO, "!=": s != ZERO}
                 if op in truth:
                     return frozenset({truth[op]})
+        alg = getattr(self, "alg", None)
+        if alg is not None and not getattr(self, "_in_alg", False):
+            # compare the exact values: the sign of the difference as a factored normal form
+            self._in_alg = True
+            try:
+                d = exact_value(a, self, alg) - exact_value(b, self, alg)
+                s = rat_sign(d, self.lf, alg)
+            except (NotAlgebraic, IsNaN):
+                s = None
+            finally:
+                self._in_alg = False
+            if s is not None:
+                truth = {"<": s == NEG, "<=": s in (NEG, ZERO), ">": s == POS, ">=": s in (POS, ZERO), "==": s == ZERO, "!=": s != ZERO}
+                if op in truth:
+                    return frozenset({truth[op]})
         return compare(op, to_num(self.ev(a)), to_num(self.ev(b)))
 
 
@@ -484,6 +499,16 @@ def exact_value(t: Term, ev: OrderEval, alg) -> Any:  # type: ignore[no-untyped-
         b = ev.ev(u)
         if is_bool(b) and len(b) == 1:
             return Rat.const(1 if True in b else 0)
+        if u[0] == "call" and u[1] == ("global", "numpy.isnan") and len(u[2]) == 1:
+            # a value with a normal form whose function symbols are applied inside their domains is a number
+            try:
+                d = domain(go(u[2][0]), lf, alg)
+            except IsNaN:
+                return Rat.const(1)
+            if d is True:
+                return Rat.const(0)
+            if d is False:
+                return Rat.const(1)
         raise NotAlgebraic(f"undecided condition {show(u)[:60]}")
 
     def num(c: Any):  # type: ignore[no-untyped-def]
@@ -543,7 +568,7 @@ def exact_value(t: Term, ev: OrderEval, alg) -> Any:  # type: ignore[no-untyped-
             c = ev.ev(u[1])
             if is_bool(c) and len(c) == 1:
                 return go(u[2] if True in c else u[3])
-            raise NotAlgebraic("undecided conditional")
+            return go(u[2] if boolean(unwrap(u[1])).equals(Rat.const(1)) else u[3])
         if k == "call" and u[1][0] == "global":
             g = u[1][1]
             short = g.split(".")[-1]
@@ -555,7 +580,7 @@ def exact_value(t: Term, ev: OrderEval, alg) -> Any:  # type: ignore[no-untyped-
                         raise NotAlgebraic("where on a number")
                     if len(c) == 1:
                         return go(args[1] if True in c else args[2])
-                    raise NotAlgebraic(f"undecided condition {show(args[0])[:60]}")
+                    return go(args[1] if boolean(unwrap(args[0])).equals(Rat.const(1)) else args[2])
                 if short in ("isnan", "isfinite", "isinf", "logical_and", "logical_or", "logical_not"):
                     return boolean(u)
                 if short == "square":
@@ -666,3 +691,284 @@ def numeric_witness(lf: LinearForms, extra: dict[Any, float] | None = None) -> d
         val[a] = float(v)
     val.update(extra or {})
     return val
+
+
+# --------------------------------------------------------------------------------------------- signs of normal forms
+def _mul_sign(a: str | None, b: str | None) -> str | None:
+    if a == ZERO or b == ZERO:
+        return ZERO
+    if a is None or b is None:
+        return None
+    return POS if a == b else NEG
+
+
+def rat_sign(r, lf: LinearForms, alg, depth: int = 4) -> str | None:  # type: ignore[no-untyped-def]
+    """Sign of a normal form in the order type, by factoring: linear forms of the atoms, monomials, common monomial factors,
+    linear factors (differences of atoms), and `a*sqrt(A) + b` through the sign of a^2*A - b^2."""
+    from .algebra import Fn, Poly, Rat
+
+    origin = next((a for a in lf.val if lf.kinds[a] == "pinned" and lf.val[a] == 0), None)
+
+    def sym_sign(sy: Any) -> str | None:
+        if isinstance(sy, Fn):
+            if sy.name == "sqrt":
+                s_ = rat_sign(sy.args[0], lf, alg, depth - 1) if depth > 0 else None
+                return s_ if s_ in (POS, ZERO) else None
+            if sy.name == "exp":
+                return POS
+            if sy.name == "abs":
+                s_ = rat_sign(sy.args[0], lf, alg, depth - 1) if depth > 0 else None
+                return ZERO if s_ == ZERO else (POS if s_ in (POS, NEG) else None)
+            if sy.name == "log":
+                return rat_sign(sy.args[0] - Rat.const(1), lf, alg, depth - 1) if depth > 0 else None
+            if sy.name == "pow":
+                s_ = rat_sign(sy.args[0], lf, alg, depth - 1) if depth > 0 else None
+                return POS if s_ == POS else None
+            return None
+        if sy == "pi":
+            return POS
+        if sy in lf.val:
+            kind, v = lf.kinds[sy], lf.val[sy]
+            if kind == "positive":
+                return POS
+            if kind == "nonzero":
+                return POS if v > 0 else NEG
+            if kind == "pinned" or origin is not None:
+                return ZERO if v == 0 else (POS if v > 0 else NEG)
+            return None
+        if isinstance(sy, tuple) and sy[:2] == ("attr", SELF) and sy[2] == "height":
+            return POS
+        return None
+
+    def linear(pl: Poly):  # type: ignore[no-untyped-def]
+        co: dict[Term, Fraction] = {}
+        c0 = Fraction(0)
+        for m, c in pl.t.items():
+            if m == ():
+                c0 += c
+            elif len(m) == 1 and m[0][1] == 1 and m[0][0] in lf.val:
+                co[m[0][0]] = co.get(m[0][0], Fraction(0)) + c
+            else:
+                return None
+        return (co, c0)
+
+    def divide(pl: Poly, lin: dict[Any, Fraction]) -> Poly | None:
+        """Exact division of pl by the linear polynomial sum(c*v) (no constant term); None when it does not divide."""
+        v, cv = sorted(lin.items(), key=lambda kv: repr(kv[0]))[0]
+        rest = Poly({((q, 1),): c for q, c in lin.items() if q != v})
+        rem = pl
+        quo = Poly()
+        for _ in range(12):
+            dg = rem.degree_in(v)
+            if dg == 0:
+                break
+            lead = Poly({tuple((q, e) for q, e in m if q != v) + (((v, dg - 1),) if dg > 1 else ()): c / cv
+                         for m, c in rem.t.items() if dict(m).get(v, 0) == dg})
+            lead = Poly({tuple(sorted(m, key=lambda kv: repr(kv[0]))): c for m, c in lead.t.items()})
+            quo = quo + lead
+            rem = rem - lead * (Poly({((v, 1),): cv}) + rest)
+        return quo if rem.is_zero() else None
+
+    def poly_sign(pl: Poly, budget: int = 6) -> str | None:
+        if pl.is_zero():
+            return ZERO
+        if pl.is_const():
+            return POS if pl.const_value() > 0 else NEG
+        if len(pl.t) == 1:
+            (m, c), = pl.t.items()
+            sg: str | None = POS if c > 0 else NEG
+            for q, e in m:
+                sq = sym_sign(q)
+                if sq is None:
+                    return None
+                sg = _mul_sign(sg, sq if (e % 2 or sq == ZERO) else POS)
+            return sg
+        lin = linear(pl)
+        if lin is not None:
+            return lf.sign(lin)
+        # common monomial factor
+        monos = list(pl.t)
+        common: dict[Any, int] = dict(monos[0])
+        for m in monos[1:]:
+            dm = dict(m)
+            common = {q: min(e, dm.get(q, 0)) for q, e in common.items() if dm.get(q, 0) > 0}
+        if common:
+            g_sign: str | None = POS
+            for q, e in common.items():
+                sq = sym_sign(q)
+                if sq is None:
+                    g_sign = None  # the factor may vanish or be negative: nothing is known
+                    break
+                g_sign = _mul_sign(g_sign, sq if (e % 2 or sq == ZERO) else POS)
+            cof = Poly({tuple((q, e - common.get(q, 0)) for q, e in m if e - common.get(q, 0) > 0): c for m, c in pl.t.items()})
+            return _mul_sign(g_sign, poly_sign(cof, budget - 1)) if budget > 0 else None
+        if len(pl.t) == 1:
+            return None
+        # a * sqrt(A) + b
+        for q in sorted((x for x in pl.symbols() if isinstance(x, Fn) and x.name == "sqrt" and pl.degree_in(x) == 1), key=repr):
+            a_ = Poly({tuple((y, e) for y, e in m if y != q): c for m, c in pl.t.items() if dict(m).get(q, 0) == 1})
+            b_ = Poly({m: c for m, c in pl.t.items() if dict(m).get(q, 0) == 0})
+            sa_, sb_ = poly_sign(a_, budget - 1), poly_sign(b_, budget - 1)
+            sq = sym_sign(q)
+            if sa_ is None or sb_ is None or sq is None or budget <= 0:
+                continue
+            if sq == ZERO or sa_ == ZERO:
+                return sb_
+            if sb_ == ZERO or sb_ == sa_:
+                return sa_
+            # opposite signs: a*q > -b  <=>  a^2 * A > b^2 (both sides non-negative), oriented by the sign of a
+            diff = Rat(a_ * a_) * q.args[0] - Rat(b_ * b_)
+            sd = rat_sign(diff, lf, alg, depth - 1) if depth > 0 else None
+            return _mul_sign(sa_, sd) if sd is not None else None
+        # linear factors: differences of atoms that occur in the polynomial
+        if budget > 0:
+            atoms = sorted((x for x in pl.symbols() if x in lf.val and lf.kinds[x] in ("position", "pinned")), key=repr)
+            for i_, a in enumerate(atoms):
+                for b in atoms[i_ + 1:]:
+                    q_ = divide(pl, {a: Fraction(1), b: Fraction(-1)})
+                    if q_ is not None:
+                        return _mul_sign(lf.sign(({a: Fraction(1), b: Fraction(-1)}, Fraction(0))), poly_sign(q_, budget - 1))
+        return None
+
+    sn = poly_sign(r.n)
+    if sn == ZERO:
+        return ZERO
+    sd = poly_sign(r.d)
+    if sn is None or sd is None or sd == ZERO:
+        return None
+    return POS if sn == sd else NEG
+
+
+def domain(r, lf: LinearForms, alg) -> bool | None:  # type: ignore[no-untyped-def]
+    """True: every function symbol of the normal form is applied inside its real domain and no denominator vanishes (the value is a
+    real number); False: some application is definitely outside; None: unknown."""
+    from .algebra import Fn
+
+    verdict: bool | None = True
+    todo = list(r.symbols())
+    seen = set()
+    sd = rat_sign_poly(r.d, lf, alg)
+    if sd == ZERO:
+        return False
+    if sd is None:
+        verdict = None
+    while todo:
+        sy = todo.pop()
+        if not isinstance(sy, Fn) or sy in seen:
+            continue
+        seen.add(sy)
+        for a in sy.args:
+            todo += list(a.symbols())
+            sda = rat_sign_poly(a.d, lf, alg)
+            if sda == ZERO:
+                return False
+            if sda is None:
+                verdict = None
+        s_ = rat_sign(sy.args[0], lf, alg)
+        if sy.name == "sqrt":
+            if s_ == NEG:
+                return False
+            if s_ is None:
+                verdict = None
+        elif sy.name == "log":
+            if s_ in (NEG, ZERO):
+                return False
+            if s_ is None:
+                verdict = None
+        elif sy.name == "pow":
+            if s_ != POS:
+                verdict = None
+    return verdict
+
+
+def rat_sign_poly(pl, lf: LinearForms, alg):  # type: ignore[no-untyped-def]
+    from .algebra import Rat
+
+    return rat_sign(Rat(pl), lf, alg)
+
+
+def poly_divide(pl, lin: dict[Any, Fraction]):  # type: ignore[no-untyped-def]
+    """Exact division of a polynomial by the linear polynomial sum(c*v); None when it does not divide."""
+    from .algebra import Poly
+
+    v, cv = sorted(lin.items(), key=lambda kv: repr(kv[0]))[0]
+    rest = Poly({((q, 1),): c for q, c in lin.items() if q != v})
+    rem = pl
+    quo = Poly()
+    for _ in range(12):
+        dg = rem.degree_in(v)
+        if dg == 0:
+            break
+        lead = Poly({tuple(sorted([(q, e) for q, e in m if q != v] + ([(v, dg - 1)] if dg > 1 else []), key=lambda kv: repr(kv[0]))): c / cv
+                     for m, c in rem.t.items() if dict(m).get(v, 0) == dg})
+        quo = quo + lead
+        rem = rem - lead * (Poly({((v, 1),): cv}) + rest)
+    return quo if rem.is_zero() else None
+
+
+def factor_poly(pl, lf: LinearForms):  # type: ignore[no-untyped-def]
+    """(constant, [(factor polynomial, multiplicity)]) with monomial symbols and differences/sums of position atoms as factors,
+    or None when a non-constant cofactor is left."""
+    from .algebra import Poly
+
+    if pl.is_zero():
+        return None
+    factors: list[tuple[Any, int]] = []
+    monos = list(pl.t)
+    common = dict(monos[0])
+    for m in monos[1:]:
+        dm = dict(m)
+        common = {q: min(e, dm.get(q, 0)) for q, e in common.items() if dm.get(q, 0) > 0}
+    for q, e in common.items():
+        factors.append((Poly.sym(q), e))
+    cof = Poly({tuple((q, e - common.get(q, 0)) for q, e in m if e - common.get(q, 0) > 0): c for m, c in pl.t.items()})
+    atoms = sorted((x for x in cof.symbols() if x in lf.val and lf.kinds[x] in ("position", "pinned", "positive", "nonzero")), key=repr)
+    cands = []
+    for i_, a in enumerate(atoms):
+        for b in atoms[i_ + 1:]:
+            cands.append({a: Fraction(1), b: Fraction(-1)})
+            cands.append({a: Fraction(1), b: Fraction(1)})
+    for lin in cands:
+        mult = 0
+        while not cof.is_const():
+            q_ = poly_divide(cof, lin)
+            if q_ is None:
+                break
+            cof, mult = q_, mult + 1
+        if mult:
+            factors.append((Poly({((v, 1),): c for v, c in lin.items()}), mult))
+    if not cof.is_const():
+        return None
+    return cof.const_value(), factors
+
+
+def make_algebra(lf: LinearForms):
+    """An algebra context that knows the order type: abs() is resolved by the sign of its argument, sqrt() of a perfect square
+    (found by factoring into monomials and differences/sums of atoms) is the absolute value of the root."""
+    import math
+
+    from .algebra import Algebra, Rat
+
+    alg: Any = None
+
+    def root(r):  # type: ignore[no-untyped-def]
+        fn_, fd_ = factor_poly(r.n, lf), (factor_poly(r.d, lf) if not r.d.is_const() else (r.d.const_value(), []))
+        if fn_ is None or fd_ is None:
+            return None
+        c = Fraction(fn_[0]) / Fraction(fd_[0])
+        if c < 0:
+            return None
+        rc = Fraction(math.isqrt(c.numerator), math.isqrt(c.denominator))
+        if rc * rc != c or any(m % 2 for _, m in fn_[1] + fd_[1]):
+            return None
+        if not fn_[1] and not fd_[1]:
+            return None  # a plain number: handled by constant folding
+        out = Rat.const(rc)
+        for pl, m in fn_[1]:
+            out = out * alg.fn("abs", Rat(pl)).pow(m // 2)
+        for pl, m in fd_[1]:
+            out = out / alg.fn("abs", Rat(pl)).pow(m // 2)
+        return out
+
+    alg = Algebra(lambda r: rat_sign(r, lf, alg), root)
+    return alg
